@@ -433,6 +433,36 @@ func rulesTagTable(c *Ctx, r *Report) {
 				}
 			}
 		}
+		if e.letter == "" {
+			// the letter chosen in the arm and joined later: typ = "A" … return tag + ":" + typ + ":" + text
+			instrs(wf, func(in2 ssa.Instruction) {
+				phi, ok := in2.(*ssa.Phi)
+				if !ok || !isStringType(phi.Type()) {
+					return
+				}
+				for i, ed := range phi.Edges {
+					pb := phi.Block().Preds[i]
+					if pb != okBlk && !okBlk.Dominates(pb) {
+						continue
+					}
+					if str, ok := constStr(ed); ok && len(str) == 1 {
+						// the merged letter stands between two ':' in what is returned
+						joined := false
+						instrs(wf, func(in3 ssa.Instruction) {
+							if rt, ok := in3.(*ssa.Return); ok && len(rt.Results) == 1 {
+								es := ws.expr(rt.Results[0]).String()
+								if strings.Contains(es, "\":\"") && strings.Count(es, "\":\"") >= 2 {
+									joined = true
+								}
+							}
+						})
+						if joined {
+							e.letter = str
+						}
+					}
+				}
+			})
+		}
 		W = append(W, e)
 	})
 	type rEntry struct {
@@ -715,16 +745,36 @@ func rulesSamHeader(c *Ctx, r *Report) {
 	r.check(okJoin, "G6", where, "header verbatim", c.pos(split.Pos()), "a header line is the split fields re-joined with the same separator: returned verbatim", "header lines are not re-joined from their own fields with the separator they were split on: headers are not returned verbatim")
 	// header test: HasPrefix(line[0], "@")
 	okAt := false
-	instrs(f, func(in ssa.Instruction) {
-		if cl, ok := in.(*ssa.Call); ok && fnIs(cl.Call.StaticCallee(), "strings", "HasPrefix") {
-			if p, ok := constStr(cl.Call.Args[1]); ok && p == "@" {
-				if ld, ok := cl.Call.Args[0].(*ssa.UnOp); ok {
-					if ia, ok := ld.X.(*ssa.IndexAddr); ok && ia.X == ssa.Value(split) {
-						if k, ok := cInt(constVal(ia.Index)); ok && k == 0 {
-							okAt = true
+	atTest := func(fn *ssa.Function, isFields func(ssa.Value) bool) {
+		instrs(fn, func(in ssa.Instruction) {
+			if cl, ok := in.(*ssa.Call); ok && fnIs(cl.Call.StaticCallee(), "strings", "HasPrefix") {
+				if p, ok := constStr(cl.Call.Args[1]); ok && p == "@" {
+					if ld, ok := cl.Call.Args[0].(*ssa.UnOp); ok {
+						if ia, ok := ld.X.(*ssa.IndexAddr); ok && isFields(ia.X) {
+							if k, ok := cInt(constVal(ia.Index)); ok && k == 0 {
+								okAt = true
+							}
 						}
 					}
 				}
+			}
+		})
+	}
+	atTest(f, func(v ssa.Value) bool { return v == ssa.Value(split) })
+	// the test made by a predicate of the package applied to the fields: isHeader(fields)
+	instrs(f, func(in ssa.Instruction) {
+		cl, ok := in.(*ssa.Call)
+		if !ok {
+			return
+		}
+		g := cl.Call.StaticCallee()
+		if g == nil || g.Blocks == nil || g.Pkg != f.Pkg || len(g.Params) != len(cl.Call.Args) {
+			return
+		}
+		for i, a := range cl.Call.Args {
+			if a == ssa.Value(split) {
+				p := g.Params[i]
+				atTest(g, func(v ssa.Value) bool { return v == ssa.Value(p) })
 			}
 		}
 	})
